@@ -381,8 +381,8 @@ func TestVerif_C30(t *testing.T) {
 	mon := &vC30Mon{r: r, signed: map[string]bool{}, accepted: map[string]bool{}}
 
 	nWorlds := r.N(6, 60)
-	nSweepPerWorld := r.N(30, 120) // base messages with a full skew sweep (sequential, clock-controlled)
-	nMutBases := r.N(300, 5000)     // base messages whose mutants are enumerated (parallel, no clock dependence)
+	nSweepPerWorld := r.N(30, 80) // base messages with a full skew sweep (sequential, clock-controlled)
+	nMutBases := r.N(300, 3000)   // base messages whose mutants are enumerated (parallel, no clock dependence)
 	nsub := r.N(2, 3)
 	nClockMut := r.N(12, 300) // bases whose timestamp mutants are replayed with the clock moved onto them
 
